@@ -414,6 +414,24 @@ class Case:
                 return
         self.run.cov["probes_completed"] += 1
 
+    def released_check(self):
+        """'No capacity consumed for good': with nothing else happening (two quiet seconds of timer checks), what
+        the fault took down must have been let go - a connection the node has marked closed is out of its tables
+        and its socket is closed.  Judged before the probe, whose own activity would wake the node."""
+        from diameter.node.peer import PEER_CLOSED
+        h, n = self.h, self.node
+        if self.spec.get("stall_seed") is not None:
+            return
+        for _ in range(2):
+            h.advance(1)
+            h.settle()
+        for c in list(h.conns):
+            if c.state == PEER_CLOSED and n.connections.get(c.ident) is c:
+                sock = n.peer_sockets.get(c.ident)
+                self.witness("fault.closed_connection_never_released",
+                             {"socket_closed": getattr(sock, "closed", None), "conn": str(c)})
+        self.run.cov["released_checks"] = self.run.cov.get("released_checks", 0) + 1
+
     def execute(self):
         self.started = False
         try:
@@ -421,6 +439,7 @@ class Case:
                 self.one_fault()
                 self.h.settle()
             self.start_once()
+            self.released_check()
             self.probe()
             self.h.settle()
             for e in self.h.thread_exc:
